@@ -308,6 +308,9 @@ def _templates():
                    ('C3', 'C', _addv(n1, _pol(1.45, 30)))], {'N1': 'NAM', 'O1': 'O2'}, 'N1')
     ring = [('C%d' % (i + 1), 'C', _pol(1.39, 60 * i)) for i in range(6)]
     mol['ANL'] = (ring + [('N7', 'N', _pol(1.39 + 1.40, 0))], {'N7': 'NP1'}, 'N7')
+    # aryl halides: the free position of the substituted ring carbon is exactly where the halogen sits
+    mol['CLB'] = (ring + [('CL7', 'Cl', _pol(1.39 + 1.74, 0))], {'CL7': 'Cl'}, 'CL7')
+    mol['BRB'] = (ring + [('BR7', 'Br', _pol(1.39 + 1.90, 0)), ('CL8', 'Cl', _pol(1.39 + 1.74, 180))], {'CL8': 'Cl'}, 'CL8')
     return mol
 
 
@@ -498,7 +501,9 @@ def with_burial(parts, level, ter=True):
 PROTEIN_KINDS = collections.OrderedDict([
     ('ASP', 'OD1'), ('GLU', 'OE1'), ('HIS', 'NE2'), ('CYS', 'SG'), ('TYR', 'OH'), ('LYS', 'NZ'), ('ARG', 'NH1'),
     ('SER', 'OG'), ('THR', 'OG1'), ('ASN', 'ND2'), ('GLN', 'NE2'), ('TRP', 'NE1'),
+    ('ASNO', 'OD1'), ('GLNO', 'OE1'),      # the amide approached through its oxygen (acceptor side)
 ])
+KIND_RESNAME = {'ASNO': 'ASN', 'GLNO': 'GLN'}
 SOURCE = ('3SGB', 'E')   # chain E of 3SGB has every residue type except CYS-free... see kind_fragment
 
 
@@ -528,7 +533,7 @@ def kind_fragment(kind, nth=0):
         return s
     for key, chain in (('3SGB', 'E'), ('3SGB', 'I'), ('1HPX', 'A'), ('4DFR', 'A'), ('1FTJ', 'A')):
         try:
-            i = lib.find(key, chain, kind, nth)
+            i = lib.find(key, chain, KIND_RESNAME.get(kind, kind), nth)
         except IndexError:
             continue
         return lib.fragment(key, chain, i)
@@ -559,7 +564,7 @@ def kind_struct(kind, chain, resnum0=1):
 def kind_atom(kind, s):
     """The atom of a kind through which pairs are docked."""
     if kind in PROTEIN_KINDS:
-        return atom_named(s, PROTEIN_KINDS[kind], kind)
+        return atom_named(s, PROTEIN_KINDS[kind], KIND_RESNAME.get(kind, kind))
     if kind == 'N+':
         return [a for a in s.atoms if a.name == 'N'][0]
     if kind == 'C-':
